@@ -122,9 +122,9 @@ CLAIMED = {
         note="cross-thread operation pairs of the 60 listed classes C15:ns:<kinds>:<relation> (operations are multi-transaction: needs a redesign; each class has a recorded witness that its probe replays) are excluded by construction from the serializability legs, all other same-path / ancestor / sibling classes are searched; they remain in the free-running/race legs; in the observer legs only the exactly identified classes C15:obs:* (MkdirAll of >=2 levels, Rename of a directory, a listing racing a rename inside it) are excluded; a data race report is a violation whose schedule cannot be replayed",
     ),
     "C09": dict(
-        technique="property-based testing with rapid over roots, volumes, conventions, names and constructed OS-path candidates; oracles computed by splitting/cleaning in the harness (round-trip and inverse relations); native coverage-guided fuzzing in the thorough tier",
+        technique="property-based testing with rapid over roots, volumes, conventions, names and constructed OS-path candidates; oracles computed by splitting/cleaning in the harness (round-trip and inverse relations); differential against the raw os package at root+name for live operations; native coverage-guided fuzzing in the thorough tier",
         text=("Through the verif hook both the Unix and the Windows convention are driven on Linux: valid names must map to volume + separator + root and name elements, invalid ones to ErrInvalid; ToOSPath/FromOSPath must round-trip; any absolute candidate FromOSPath accepts must be a valid FS path inside the root whose "
-              "forward image is the lexically cleaned candidate. A live leg exercises the exported functions of this host (relative paths refused). Thorough adds ~2M native fuzz executions."),
+              "forward image is the lexically cleaned candidate. A live leg exercises the exported functions of this host (relative paths refused); a liveops leg runs every name-taking operation (Mkdir, MkdirAll, WriteFile, Symlink, Rename, Remove, Chmod, Chtimes) through an os.FS built by 1-3 Sub calls over oddly named directories and, in a twin directory, the raw os package at root+name, comparing both trees with Lstat/Readlink after every step. Thorough adds ~2M native fuzz executions."),
         note="names or Sub directories containing a backslash or colon under the Windows convention have no exact OS spelling: ErrInvalid or 'inside the root' is accepted; OS error paths under Sub roots are checked by C05",
     ),
     "C20": dict(
